@@ -236,7 +236,10 @@ class Builder:
                     raise JaqalError(
                         f"Cannot slice {src_name}: it is not a register"
                     )
-                stop = src.size
+                if src.fundamental:
+                    stop = src.size
+                # The end of an alias may depend on let constants: leave
+                # the bound open, it is resolved together with the source.
             step = self.build(src_step, context, gate_context)
             if step is None:
                 step = 1
